@@ -29,7 +29,7 @@ import (
 var c16Closer = map[string]string{"(": ")", "[": "]", "{": "}", "#{": "}"}
 
 func isCloser(t string) bool  { return t == ")" || t == "]" || t == "}" }
-func isComment(t string) bool { return strings.HasPrefix(t, ";") }
+func isComment(t string) bool { return strings.HasPrefix(t, ";") || strings.HasPrefix(t, "\n;") }
 func isKeyTok(t string) bool {
 	return strings.HasPrefix(t, ":") || strings.HasPrefix(t, `"`) || strings.HasPrefix(t, "¬")
 }
@@ -46,6 +46,13 @@ func parseForm(toks []string, i int) (int, bool) {
 	switch {
 	case t == "'":
 		return parseForm(toks, i+1)
+	case t == "^":
+		// with-meta reader macro: ^META FORM
+		j, ok := parseForm(toks, i+1)
+		if !ok {
+			return j, false
+		}
+		return parseForm(toks, j)
 	case isCloser(t):
 		return i, false
 	case c16Closer[t] != "":
@@ -151,6 +158,7 @@ func c16Grammar(maxW int) *enum.Grammar {
 	forms := []enum.Prod{
 		leaf("a", tl("a")), leaf(":k", tl(":k")), leaf(`"s)"`, tl(`"s)"`)), leaf(`"("`, tl(`"("`)), leaf("¬]¬", tl("¬]¬")),
 		{Name: "'", Weight: 1, Kids: []int{F}, Build: func(k []V) V { return tl(append([]string{"'"}, toksOf(k[0])...)...) }},
+		{Name: "^meta", Weight: 1, Kids: []int{F}, Build: func(k []V) V { return tl(append([]string{"^", "{", ":m", "1", "}"}, toksOf(k[0])...)...) }},
 	}
 	for n := 0; n <= 3; n++ {
 		kids := make([]int, n)
@@ -174,6 +182,10 @@ func c16Grammar(maxW int) *enum.Grammar {
 	el := append([]enum.Prod{}, forms...)
 	el = append(el, enum.Prod{Name: ";c)", Weight: 1, Kids: []int{F}, Build: func(k []V) V {
 		return tl(append([]string{";c)\n"}, toksOf(k[0])...)...)
+	}})
+	// a comment that looks like the module header line, inside an expression
+	el = append(el, enum.Prod{Name: ";; $MODULE", Weight: 1, Kids: []int{F}, Build: func(k []V) V {
+		return tl(append([]string{"\n;; $MODULE m.lisp\n"}, toksOf(k[0])...)...)
 	}})
 	return enum.New([][]enum.Prod{forms, keys, el}, maxW)
 }
@@ -227,7 +239,7 @@ func init() {
 		}
 		fam := &vf.Family{
 			Name:     "expressions",
-			Bounds:   "all well-formed expressions of weight <=5 (quick) / <=6 (thorough) over list/vector (0-3 elements), map (0-2 entries), set (0-2 members), quote prefix, atoms incl. strings and raw strings containing bracket characters, comments containing ')'; each: every token-boundary cut, each closer appended, each closer inserted at every token boundary, each closer replaced, a second expression (complete, or still open in 7 ways) appended",
+			Bounds:   "all well-formed expressions of weight <=5 (quick) / <=6 (thorough) over list/vector (0-3 elements), map (0-2 entries), set (0-2 members), quote prefix, ^metadata prefix, atoms incl. strings and raw strings containing bracket characters, comments containing ')' and a comment line that looks like a ';; $MODULE' header; each: every token-boundary cut, each closer appended, each closer inserted at every token boundary, each closer replaced, a second expression (complete, or still open in 7 ways) appended",
 			Setup:    func(t string) { tier = t },
 			N:        func(t string) int64 { tier = t; return gOf().Count(0, wOf()) },
 			Describe: func(i int64) string { return strconv.Quote(strings.Join(toksOf(gOf().Unrank(0, i)), " ")) },
